@@ -81,6 +81,12 @@ Proof.
   intros Ht Hu. rewrite (cmp_greater_ok i16 i32 t u ltac:(wt) ltac:(wt) Ht Hu).
   unfold Gen_bits2.cmp_greater_i16_i32_g, cmp_greater_spec. cmpB.
 Qed.
+Lemma cmp_greater_u32_i32_eq t u : in_ty u32 t = true -> in_ty i32 u = true ->
+  Gen_bits2.cmp_greater_u32_i32_g t u = Some (cmp_greater_m u32 i32 t u).
+Proof.
+  intros Ht Hu. rewrite (cmp_greater_ok u32 i32 t u ltac:(wt) ltac:(wt) Ht Hu).
+  unfold Gen_bits2.cmp_greater_u32_i32_g, cmp_greater_spec. cmpB.
+Qed.
 Lemma cmp_less_equal_i32_u32_eq t u : in_ty i32 t = true -> in_ty u32 u = true ->
   Gen_bits2.cmp_less_equal_i32_u32_g t u = Some (cmp_less_equal_m i32 u32 t u).
 Proof.
@@ -116,6 +122,12 @@ Lemma cmp_less_equal_i16_i32_eq t u : in_ty i16 t = true -> in_ty i32 u = true -
 Proof.
   intros Ht Hu. rewrite (cmp_less_equal_ok i16 i32 t u ltac:(wt) ltac:(wt) Ht Hu).
   unfold Gen_bits2.cmp_less_equal_i16_i32_g, cmp_less_equal_spec. cmpB.
+Qed.
+Lemma cmp_less_equal_u32_i32_eq t u : in_ty u32 t = true -> in_ty i32 u = true ->
+  Gen_bits2.cmp_less_equal_u32_i32_g t u = Some (cmp_less_equal_m u32 i32 t u).
+Proof.
+  intros Ht Hu. rewrite (cmp_less_equal_ok u32 i32 t u ltac:(wt) ltac:(wt) Ht Hu).
+  unfold Gen_bits2.cmp_less_equal_u32_i32_g, cmp_less_equal_spec. cmpB.
 Qed.
 Lemma cmp_greater_equal_i32_u32_eq t u : in_ty i32 t = true -> in_ty u32 u = true ->
   Gen_bits2.cmp_greater_equal_i32_u32_g t u = Some (cmp_greater_equal_m i32 u32 t u).
@@ -153,6 +165,12 @@ Proof.
   intros Ht Hu. rewrite (cmp_greater_equal_ok i16 i32 t u ltac:(wt) ltac:(wt) Ht Hu).
   unfold Gen_bits2.cmp_greater_equal_i16_i32_g, cmp_greater_equal_spec. cmpB.
 Qed.
+Lemma cmp_greater_equal_u32_i32_eq t u : in_ty u32 t = true -> in_ty i32 u = true ->
+  Gen_bits2.cmp_greater_equal_u32_i32_g t u = Some (cmp_greater_equal_m u32 i32 t u).
+Proof.
+  intros Ht Hu. rewrite (cmp_greater_equal_ok u32 i32 t u ltac:(wt) ltac:(wt) Ht Hu).
+  unfold Gen_bits2.cmp_greater_equal_u32_i32_g, cmp_greater_equal_spec. cmpB.
+Qed.
 Lemma cmp_not_equal_i32_u32_eq t u : in_ty i32 t = true -> in_ty u32 u = true ->
   Gen_bits2.cmp_not_equal_i32_u32_g t u = Some (cmp_not_equal_m i32 u32 t u).
 Proof.
@@ -188,6 +206,12 @@ Lemma cmp_not_equal_i16_i32_eq t u : in_ty i16 t = true -> in_ty i32 u = true ->
 Proof.
   intros Ht Hu. rewrite (cmp_not_equal_ok i16 i32 t u ltac:(wt) ltac:(wt) Ht Hu).
   unfold Gen_bits2.cmp_not_equal_i16_i32_g, cmp_not_equal_spec. cmpB.
+Qed.
+Lemma cmp_not_equal_u32_i32_eq t u : in_ty u32 t = true -> in_ty i32 u = true ->
+  Gen_bits2.cmp_not_equal_u32_i32_g t u = Some (cmp_not_equal_m u32 i32 t u).
+Proof.
+  intros Ht Hu. rewrite (cmp_not_equal_ok u32 i32 t u ltac:(wt) ltac:(wt) Ht Hu).
+  unfold Gen_bits2.cmp_not_equal_u32_i32_g, cmp_not_equal_spec. cmpB.
 Qed.
 
 (** * in_range<R>(T t): every value of T *)
@@ -226,6 +250,12 @@ Lemma in_range_i32_of_i16_eq t : in_ty i16 t = true ->
 Proof.
   intros Ht. rewrite (in_range_ok i32 i16 t ltac:(wt) ltac:(wt) Ht).
   unfold Gen_bits2.in_range_i32_of_i16_g, in_range_spec, in_ty. cmpB.
+Qed.
+Lemma in_range_i32_of_u32_eq t : in_ty u32 t = true ->
+  Gen_bits2.in_range_i32_of_u32_g t = Some (in_range_m i32 u32 t).
+Proof.
+  intros Ht. rewrite (in_range_ok i32 u32 t ltac:(wt) ltac:(wt) Ht).
+  unfold Gen_bits2.in_range_i32_of_u32_g, in_range_spec, in_ty. cmpB.
 Qed.
 
 (** * saturate_cast<To>(From x): every value of From *)
@@ -448,14 +478,20 @@ Lemma genB_model :
       Gen_bits2.cmp_greater_i16_i32_g t u = Some (cmp_greater_m i16 i32 t u)
       /\ Gen_bits2.cmp_less_equal_i16_i32_g t u = Some (cmp_less_equal_m i16 i32 t u)
       /\ Gen_bits2.cmp_greater_equal_i16_i32_g t u = Some (cmp_greater_equal_m i16 i32 t u)
-      /\ Gen_bits2.cmp_not_equal_i16_i32_g t u = Some (cmp_not_equal_m i16 i32 t u)))
+      /\ Gen_bits2.cmp_not_equal_i16_i32_g t u = Some (cmp_not_equal_m i16 i32 t u))
+    /\ (in_ty u32 t = true -> in_ty i32 u = true ->
+      Gen_bits2.cmp_greater_u32_i32_g t u = Some (cmp_greater_m u32 i32 t u)
+      /\ Gen_bits2.cmp_less_equal_u32_i32_g t u = Some (cmp_less_equal_m u32 i32 t u)
+      /\ Gen_bits2.cmp_greater_equal_u32_i32_g t u = Some (cmp_greater_equal_m u32 i32 t u)
+      /\ Gen_bits2.cmp_not_equal_u32_i32_g t u = Some (cmp_not_equal_m u32 i32 t u)))
   /\ (forall t,
     (in_ty i32 t = true -> Gen_bits2.in_range_u32_of_i32_g t = Some (in_range_m u32 i32 t))
     /\ (in_ty i8 t = true -> Gen_bits2.in_range_u64_of_i8_g t = Some (in_range_m u64 i8 t))
     /\ (in_ty u32 t = true -> Gen_bits2.in_range_i64_of_u32_g t = Some (in_range_m i64 u32 t))
     /\ (in_ty i64 t = true -> Gen_bits2.in_range_u64_of_i64_g t = Some (in_range_m u64 i64 t))
     /\ (in_ty u8 t = true -> Gen_bits2.in_range_i8_of_u8_g t = Some (in_range_m i8 u8 t))
-    /\ (in_ty i16 t = true -> Gen_bits2.in_range_i32_of_i16_g t = Some (in_range_m i32 i16 t)))
+    /\ (in_ty i16 t = true -> Gen_bits2.in_range_i32_of_i16_g t = Some (in_range_m i32 i16 t))
+    /\ (in_ty u32 t = true -> Gen_bits2.in_range_i32_of_u32_g t = Some (in_range_m i32 u32 t)))
   /\ (forall x,
     (in_ty i32 x = true -> Gen_bits2.saturate_cast_u8_of_i32_g x = ok_of (saturate_cast_m u8 i32 x))
     /\ (in_ty i32 x = true -> Gen_bits2.saturate_cast_i8_of_i32_g x = ok_of (saturate_cast_m i8 i32 x))
@@ -492,23 +528,119 @@ Lemma genB_model :
       /\ Some (Gen_bits2.test_bit_tpl31_u32_g word) = option_map ok_of (test_bit_tpl_m 32 31 word)
       /\ Some (Gen_bits2.set_bit_val_tpl31_u32_g word v) = option_map ok_of (assign_bit_tpl_m 32 31 word v))).
 Proof.
-  repeat split; intros; first [ apply cmp_greater_i32_u32_eq | apply cmp_greater_i8_u64_eq | apply cmp_greater_u32_i64_eq | apply cmp_greater_i64_u64_eq | apply cmp_greater_u8_i8_eq | apply cmp_greater_i16_i32_eq | apply cmp_less_equal_i32_u32_eq | apply cmp_less_equal_i8_u64_eq | apply cmp_less_equal_u32_i64_eq | apply cmp_less_equal_i64_u64_eq | apply cmp_less_equal_u8_i8_eq | apply cmp_less_equal_i16_i32_eq | apply cmp_greater_equal_i32_u32_eq | apply cmp_greater_equal_i8_u64_eq | apply cmp_greater_equal_u32_i64_eq | apply cmp_greater_equal_i64_u64_eq | apply cmp_greater_equal_u8_i8_eq | apply cmp_greater_equal_i16_i32_eq | apply cmp_not_equal_i32_u32_eq | apply cmp_not_equal_i8_u64_eq | apply cmp_not_equal_u32_i64_eq | apply cmp_not_equal_i64_u64_eq | apply cmp_not_equal_u8_i8_eq | apply cmp_not_equal_i16_i32_eq | apply in_range_u32_of_i32_eq | apply in_range_u64_of_i8_eq | apply in_range_i64_of_u32_eq | apply in_range_u64_of_i64_eq | apply in_range_i8_of_u8_eq | apply in_range_i32_of_i16_eq | apply saturate_cast_u8_of_i32_eq | apply saturate_cast_i8_of_i32_eq | apply saturate_cast_i32_of_u32_eq | apply saturate_cast_u32_of_i64_eq | apply saturate_cast_i64_of_u64_eq | apply saturate_cast_u64_of_i8_eq | apply byteswap_fallback_u16_eq | apply byteswap_fallback_u32_eq | apply byteswap_fallback_u64_eq | apply ntoh_u8_eq | apply ntoh_u16_eq | apply ntoh_u32_eq | apply hton_u8_eq | apply hton_u16_eq | apply hton_u32_eq | apply add_sat_fallback_i64_eq | apply add_sat_fallback_u64_eq | apply abs_i32_eq | apply abs_i64_eq | apply set_bit_tpl7_u8_eq | apply reset_bit_tpl7_u8_eq | apply flip_bit_tpl7_u8_eq | apply test_bit_tpl7_u8_eq | apply set_bit_val_tpl7_u8_eq | apply set_bit_tpl31_u32_eq | apply reset_bit_tpl31_u32_eq | apply flip_bit_tpl31_u32_eq | apply test_bit_tpl31_u32_eq | apply set_bit_val_tpl31_u32_eq ]; assumption.
+  exact (conj (fun t u => (conj (fun Ht Hu => (conj (cmp_greater_i32_u32_eq t u Ht Hu) (conj (cmp_less_equal_i32_u32_eq t u Ht Hu) (conj (cmp_greater_equal_i32_u32_eq t u Ht Hu) (cmp_not_equal_i32_u32_eq t u Ht Hu))))) (conj (fun Ht Hu => (conj (cmp_greater_i8_u64_eq t u Ht Hu) (conj (cmp_less_equal_i8_u64_eq t u Ht Hu) (conj (cmp_greater_equal_i8_u64_eq t u Ht Hu) (cmp_not_equal_i8_u64_eq t u Ht Hu))))) (conj (fun Ht Hu => (conj (cmp_greater_u32_i64_eq t u Ht Hu) (conj (cmp_less_equal_u32_i64_eq t u Ht Hu) (conj (cmp_greater_equal_u32_i64_eq t u Ht Hu) (cmp_not_equal_u32_i64_eq t u Ht Hu))))) (conj (fun Ht Hu => (conj (cmp_greater_i64_u64_eq t u Ht Hu) (conj (cmp_less_equal_i64_u64_eq t u Ht Hu) (conj (cmp_greater_equal_i64_u64_eq t u Ht Hu) (cmp_not_equal_i64_u64_eq t u Ht Hu))))) (conj (fun Ht Hu => (conj (cmp_greater_u8_i8_eq t u Ht Hu) (conj (cmp_less_equal_u8_i8_eq t u Ht Hu) (conj (cmp_greater_equal_u8_i8_eq t u Ht Hu) (cmp_not_equal_u8_i8_eq t u Ht Hu))))) (conj (fun Ht Hu => (conj (cmp_greater_i16_i32_eq t u Ht Hu) (conj (cmp_less_equal_i16_i32_eq t u Ht Hu) (conj (cmp_greater_equal_i16_i32_eq t u Ht Hu) (cmp_not_equal_i16_i32_eq t u Ht Hu))))) (fun Ht Hu => (conj (cmp_greater_u32_i32_eq t u Ht Hu) (conj (cmp_less_equal_u32_i32_eq t u Ht Hu) (conj (cmp_greater_equal_u32_i32_eq t u Ht Hu) (cmp_not_equal_u32_i32_eq t u Ht Hu)))))))))))) (conj (fun t => (conj (in_range_u32_of_i32_eq t) (conj (in_range_u64_of_i8_eq t) (conj (in_range_i64_of_u32_eq t) (conj (in_range_u64_of_i64_eq t) (conj (in_range_i8_of_u8_eq t) (conj (in_range_i32_of_i16_eq t) (in_range_i32_of_u32_eq t)))))))) (conj (fun x => (conj (saturate_cast_u8_of_i32_eq x) (conj (saturate_cast_i8_of_i32_eq x) (conj (saturate_cast_i32_of_u32_eq x) (conj (saturate_cast_u32_of_i64_eq x) (conj (saturate_cast_i64_of_u64_eq x) (saturate_cast_u64_of_i8_eq x))))))) (conj (fun v => (conj (byteswap_fallback_u16_eq v) (conj (byteswap_fallback_u32_eq v) (conj (byteswap_fallback_u64_eq v) (conj (ntoh_u8_eq v) (conj (ntoh_u16_eq v) (conj (ntoh_u32_eq v) (conj (hton_u8_eq v) (conj (hton_u16_eq v) (hton_u32_eq v)))))))))) (conj (fun x y => (conj (add_sat_fallback_i64_eq x y) (conj (add_sat_fallback_u64_eq x y) (conj (abs_i32_eq x) (abs_i64_eq x))))) (fun word v => (conj (fun Hw => (conj (set_bit_tpl7_u8_eq word Hw) (conj (reset_bit_tpl7_u8_eq word Hw) (conj (flip_bit_tpl7_u8_eq word Hw) (conj (test_bit_tpl7_u8_eq word Hw) (set_bit_val_tpl7_u8_eq word v Hw)))))) (fun Hw => (conj (set_bit_tpl31_u32_eq word Hw) (conj (reset_bit_tpl31_u32_eq word Hw) (conj (flip_bit_tpl31_u32_eq word Hw) (conj (test_bit_tpl31_u32_eq word Hw) (set_bit_val_tpl31_u32_eq word v Hw))))))))))))).
 Qed.
 
-Lemma WT_u64' : WT u64. Proof. unfold WT, W. cbn. lia. Qed.
-Ltac specB :=
-  first [ rewrite cmp_greater_ok by (first [wt | assumption])
-        | rewrite cmp_less_equal_ok by (first [wt | assumption])
-        | rewrite cmp_greater_equal_ok by (first [wt | assumption])
-        | rewrite cmp_not_equal_ok by (first [wt | assumption])
-        | rewrite in_range_ok by (first [wt | assumption])
-        | rewrite saturate_cast_ok by (first [wt | assumption])
-        | rewrite byteswap_fallback16_ok by assumption
-        | rewrite byteswap_fallback32_ok by assumption
-        | rewrite byteswap_fallback64_ok by assumption
-        | rewrite add_sat_fallback_ok by (first [wt | assumption])
-        | rewrite abs_ok by (first [wt | assumption]) ];
-  reflexivity.
+Lemma cmp_greater_i32_u32_sp t u : in_ty i32 t = true -> in_ty u32 u = true -> Gen_bits2.cmp_greater_i32_u32_g t u = Some (cmp_greater_spec t u).
+Proof. intros Ht Hu. rewrite (cmp_greater_i32_u32_eq t u Ht Hu), (cmp_greater_ok i32 u32 t u ltac:(wt) ltac:(wt) Ht Hu). reflexivity. Qed.
+Lemma cmp_greater_i8_u64_sp t u : in_ty i8 t = true -> in_ty u64 u = true -> Gen_bits2.cmp_greater_i8_u64_g t u = Some (cmp_greater_spec t u).
+Proof. intros Ht Hu. rewrite (cmp_greater_i8_u64_eq t u Ht Hu), (cmp_greater_ok i8 u64 t u ltac:(wt) ltac:(wt) Ht Hu). reflexivity. Qed.
+Lemma cmp_greater_u32_i64_sp t u : in_ty u32 t = true -> in_ty i64 u = true -> Gen_bits2.cmp_greater_u32_i64_g t u = Some (cmp_greater_spec t u).
+Proof. intros Ht Hu. rewrite (cmp_greater_u32_i64_eq t u Ht Hu), (cmp_greater_ok u32 i64 t u ltac:(wt) ltac:(wt) Ht Hu). reflexivity. Qed.
+Lemma cmp_greater_i64_u64_sp t u : in_ty i64 t = true -> in_ty u64 u = true -> Gen_bits2.cmp_greater_i64_u64_g t u = Some (cmp_greater_spec t u).
+Proof. intros Ht Hu. rewrite (cmp_greater_i64_u64_eq t u Ht Hu), (cmp_greater_ok i64 u64 t u ltac:(wt) ltac:(wt) Ht Hu). reflexivity. Qed.
+Lemma cmp_greater_u8_i8_sp t u : in_ty u8 t = true -> in_ty i8 u = true -> Gen_bits2.cmp_greater_u8_i8_g t u = Some (cmp_greater_spec t u).
+Proof. intros Ht Hu. rewrite (cmp_greater_u8_i8_eq t u Ht Hu), (cmp_greater_ok u8 i8 t u ltac:(wt) ltac:(wt) Ht Hu). reflexivity. Qed.
+Lemma cmp_greater_i16_i32_sp t u : in_ty i16 t = true -> in_ty i32 u = true -> Gen_bits2.cmp_greater_i16_i32_g t u = Some (cmp_greater_spec t u).
+Proof. intros Ht Hu. rewrite (cmp_greater_i16_i32_eq t u Ht Hu), (cmp_greater_ok i16 i32 t u ltac:(wt) ltac:(wt) Ht Hu). reflexivity. Qed.
+Lemma cmp_greater_u32_i32_sp t u : in_ty u32 t = true -> in_ty i32 u = true -> Gen_bits2.cmp_greater_u32_i32_g t u = Some (cmp_greater_spec t u).
+Proof. intros Ht Hu. rewrite (cmp_greater_u32_i32_eq t u Ht Hu), (cmp_greater_ok u32 i32 t u ltac:(wt) ltac:(wt) Ht Hu). reflexivity. Qed.
+Lemma cmp_less_equal_i32_u32_sp t u : in_ty i32 t = true -> in_ty u32 u = true -> Gen_bits2.cmp_less_equal_i32_u32_g t u = Some (cmp_less_equal_spec t u).
+Proof. intros Ht Hu. rewrite (cmp_less_equal_i32_u32_eq t u Ht Hu), (cmp_less_equal_ok i32 u32 t u ltac:(wt) ltac:(wt) Ht Hu). reflexivity. Qed.
+Lemma cmp_less_equal_i8_u64_sp t u : in_ty i8 t = true -> in_ty u64 u = true -> Gen_bits2.cmp_less_equal_i8_u64_g t u = Some (cmp_less_equal_spec t u).
+Proof. intros Ht Hu. rewrite (cmp_less_equal_i8_u64_eq t u Ht Hu), (cmp_less_equal_ok i8 u64 t u ltac:(wt) ltac:(wt) Ht Hu). reflexivity. Qed.
+Lemma cmp_less_equal_u32_i64_sp t u : in_ty u32 t = true -> in_ty i64 u = true -> Gen_bits2.cmp_less_equal_u32_i64_g t u = Some (cmp_less_equal_spec t u).
+Proof. intros Ht Hu. rewrite (cmp_less_equal_u32_i64_eq t u Ht Hu), (cmp_less_equal_ok u32 i64 t u ltac:(wt) ltac:(wt) Ht Hu). reflexivity. Qed.
+Lemma cmp_less_equal_i64_u64_sp t u : in_ty i64 t = true -> in_ty u64 u = true -> Gen_bits2.cmp_less_equal_i64_u64_g t u = Some (cmp_less_equal_spec t u).
+Proof. intros Ht Hu. rewrite (cmp_less_equal_i64_u64_eq t u Ht Hu), (cmp_less_equal_ok i64 u64 t u ltac:(wt) ltac:(wt) Ht Hu). reflexivity. Qed.
+Lemma cmp_less_equal_u8_i8_sp t u : in_ty u8 t = true -> in_ty i8 u = true -> Gen_bits2.cmp_less_equal_u8_i8_g t u = Some (cmp_less_equal_spec t u).
+Proof. intros Ht Hu. rewrite (cmp_less_equal_u8_i8_eq t u Ht Hu), (cmp_less_equal_ok u8 i8 t u ltac:(wt) ltac:(wt) Ht Hu). reflexivity. Qed.
+Lemma cmp_less_equal_i16_i32_sp t u : in_ty i16 t = true -> in_ty i32 u = true -> Gen_bits2.cmp_less_equal_i16_i32_g t u = Some (cmp_less_equal_spec t u).
+Proof. intros Ht Hu. rewrite (cmp_less_equal_i16_i32_eq t u Ht Hu), (cmp_less_equal_ok i16 i32 t u ltac:(wt) ltac:(wt) Ht Hu). reflexivity. Qed.
+Lemma cmp_less_equal_u32_i32_sp t u : in_ty u32 t = true -> in_ty i32 u = true -> Gen_bits2.cmp_less_equal_u32_i32_g t u = Some (cmp_less_equal_spec t u).
+Proof. intros Ht Hu. rewrite (cmp_less_equal_u32_i32_eq t u Ht Hu), (cmp_less_equal_ok u32 i32 t u ltac:(wt) ltac:(wt) Ht Hu). reflexivity. Qed.
+Lemma cmp_greater_equal_i32_u32_sp t u : in_ty i32 t = true -> in_ty u32 u = true -> Gen_bits2.cmp_greater_equal_i32_u32_g t u = Some (cmp_greater_equal_spec t u).
+Proof. intros Ht Hu. rewrite (cmp_greater_equal_i32_u32_eq t u Ht Hu), (cmp_greater_equal_ok i32 u32 t u ltac:(wt) ltac:(wt) Ht Hu). reflexivity. Qed.
+Lemma cmp_greater_equal_i8_u64_sp t u : in_ty i8 t = true -> in_ty u64 u = true -> Gen_bits2.cmp_greater_equal_i8_u64_g t u = Some (cmp_greater_equal_spec t u).
+Proof. intros Ht Hu. rewrite (cmp_greater_equal_i8_u64_eq t u Ht Hu), (cmp_greater_equal_ok i8 u64 t u ltac:(wt) ltac:(wt) Ht Hu). reflexivity. Qed.
+Lemma cmp_greater_equal_u32_i64_sp t u : in_ty u32 t = true -> in_ty i64 u = true -> Gen_bits2.cmp_greater_equal_u32_i64_g t u = Some (cmp_greater_equal_spec t u).
+Proof. intros Ht Hu. rewrite (cmp_greater_equal_u32_i64_eq t u Ht Hu), (cmp_greater_equal_ok u32 i64 t u ltac:(wt) ltac:(wt) Ht Hu). reflexivity. Qed.
+Lemma cmp_greater_equal_i64_u64_sp t u : in_ty i64 t = true -> in_ty u64 u = true -> Gen_bits2.cmp_greater_equal_i64_u64_g t u = Some (cmp_greater_equal_spec t u).
+Proof. intros Ht Hu. rewrite (cmp_greater_equal_i64_u64_eq t u Ht Hu), (cmp_greater_equal_ok i64 u64 t u ltac:(wt) ltac:(wt) Ht Hu). reflexivity. Qed.
+Lemma cmp_greater_equal_u8_i8_sp t u : in_ty u8 t = true -> in_ty i8 u = true -> Gen_bits2.cmp_greater_equal_u8_i8_g t u = Some (cmp_greater_equal_spec t u).
+Proof. intros Ht Hu. rewrite (cmp_greater_equal_u8_i8_eq t u Ht Hu), (cmp_greater_equal_ok u8 i8 t u ltac:(wt) ltac:(wt) Ht Hu). reflexivity. Qed.
+Lemma cmp_greater_equal_i16_i32_sp t u : in_ty i16 t = true -> in_ty i32 u = true -> Gen_bits2.cmp_greater_equal_i16_i32_g t u = Some (cmp_greater_equal_spec t u).
+Proof. intros Ht Hu. rewrite (cmp_greater_equal_i16_i32_eq t u Ht Hu), (cmp_greater_equal_ok i16 i32 t u ltac:(wt) ltac:(wt) Ht Hu). reflexivity. Qed.
+Lemma cmp_greater_equal_u32_i32_sp t u : in_ty u32 t = true -> in_ty i32 u = true -> Gen_bits2.cmp_greater_equal_u32_i32_g t u = Some (cmp_greater_equal_spec t u).
+Proof. intros Ht Hu. rewrite (cmp_greater_equal_u32_i32_eq t u Ht Hu), (cmp_greater_equal_ok u32 i32 t u ltac:(wt) ltac:(wt) Ht Hu). reflexivity. Qed.
+Lemma cmp_not_equal_i32_u32_sp t u : in_ty i32 t = true -> in_ty u32 u = true -> Gen_bits2.cmp_not_equal_i32_u32_g t u = Some (cmp_not_equal_spec t u).
+Proof. intros Ht Hu. rewrite (cmp_not_equal_i32_u32_eq t u Ht Hu), (cmp_not_equal_ok i32 u32 t u ltac:(wt) ltac:(wt) Ht Hu). reflexivity. Qed.
+Lemma cmp_not_equal_i8_u64_sp t u : in_ty i8 t = true -> in_ty u64 u = true -> Gen_bits2.cmp_not_equal_i8_u64_g t u = Some (cmp_not_equal_spec t u).
+Proof. intros Ht Hu. rewrite (cmp_not_equal_i8_u64_eq t u Ht Hu), (cmp_not_equal_ok i8 u64 t u ltac:(wt) ltac:(wt) Ht Hu). reflexivity. Qed.
+Lemma cmp_not_equal_u32_i64_sp t u : in_ty u32 t = true -> in_ty i64 u = true -> Gen_bits2.cmp_not_equal_u32_i64_g t u = Some (cmp_not_equal_spec t u).
+Proof. intros Ht Hu. rewrite (cmp_not_equal_u32_i64_eq t u Ht Hu), (cmp_not_equal_ok u32 i64 t u ltac:(wt) ltac:(wt) Ht Hu). reflexivity. Qed.
+Lemma cmp_not_equal_i64_u64_sp t u : in_ty i64 t = true -> in_ty u64 u = true -> Gen_bits2.cmp_not_equal_i64_u64_g t u = Some (cmp_not_equal_spec t u).
+Proof. intros Ht Hu. rewrite (cmp_not_equal_i64_u64_eq t u Ht Hu), (cmp_not_equal_ok i64 u64 t u ltac:(wt) ltac:(wt) Ht Hu). reflexivity. Qed.
+Lemma cmp_not_equal_u8_i8_sp t u : in_ty u8 t = true -> in_ty i8 u = true -> Gen_bits2.cmp_not_equal_u8_i8_g t u = Some (cmp_not_equal_spec t u).
+Proof. intros Ht Hu. rewrite (cmp_not_equal_u8_i8_eq t u Ht Hu), (cmp_not_equal_ok u8 i8 t u ltac:(wt) ltac:(wt) Ht Hu). reflexivity. Qed.
+Lemma cmp_not_equal_i16_i32_sp t u : in_ty i16 t = true -> in_ty i32 u = true -> Gen_bits2.cmp_not_equal_i16_i32_g t u = Some (cmp_not_equal_spec t u).
+Proof. intros Ht Hu. rewrite (cmp_not_equal_i16_i32_eq t u Ht Hu), (cmp_not_equal_ok i16 i32 t u ltac:(wt) ltac:(wt) Ht Hu). reflexivity. Qed.
+Lemma cmp_not_equal_u32_i32_sp t u : in_ty u32 t = true -> in_ty i32 u = true -> Gen_bits2.cmp_not_equal_u32_i32_g t u = Some (cmp_not_equal_spec t u).
+Proof. intros Ht Hu. rewrite (cmp_not_equal_u32_i32_eq t u Ht Hu), (cmp_not_equal_ok u32 i32 t u ltac:(wt) ltac:(wt) Ht Hu). reflexivity. Qed.
+Lemma in_range_u32_of_i32_sp t : in_ty i32 t = true -> Gen_bits2.in_range_u32_of_i32_g t = Some (in_range_spec u32 t).
+Proof. intros Ht. rewrite (in_range_u32_of_i32_eq t Ht), (in_range_ok u32 i32 t ltac:(wt) ltac:(wt) Ht). reflexivity. Qed.
+Lemma in_range_u64_of_i8_sp t : in_ty i8 t = true -> Gen_bits2.in_range_u64_of_i8_g t = Some (in_range_spec u64 t).
+Proof. intros Ht. rewrite (in_range_u64_of_i8_eq t Ht), (in_range_ok u64 i8 t ltac:(wt) ltac:(wt) Ht). reflexivity. Qed.
+Lemma in_range_i64_of_u32_sp t : in_ty u32 t = true -> Gen_bits2.in_range_i64_of_u32_g t = Some (in_range_spec i64 t).
+Proof. intros Ht. rewrite (in_range_i64_of_u32_eq t Ht), (in_range_ok i64 u32 t ltac:(wt) ltac:(wt) Ht). reflexivity. Qed.
+Lemma in_range_u64_of_i64_sp t : in_ty i64 t = true -> Gen_bits2.in_range_u64_of_i64_g t = Some (in_range_spec u64 t).
+Proof. intros Ht. rewrite (in_range_u64_of_i64_eq t Ht), (in_range_ok u64 i64 t ltac:(wt) ltac:(wt) Ht). reflexivity. Qed.
+Lemma in_range_i8_of_u8_sp t : in_ty u8 t = true -> Gen_bits2.in_range_i8_of_u8_g t = Some (in_range_spec i8 t).
+Proof. intros Ht. rewrite (in_range_i8_of_u8_eq t Ht), (in_range_ok i8 u8 t ltac:(wt) ltac:(wt) Ht). reflexivity. Qed.
+Lemma in_range_i32_of_i16_sp t : in_ty i16 t = true -> Gen_bits2.in_range_i32_of_i16_g t = Some (in_range_spec i32 t).
+Proof. intros Ht. rewrite (in_range_i32_of_i16_eq t Ht), (in_range_ok i32 i16 t ltac:(wt) ltac:(wt) Ht). reflexivity. Qed.
+Lemma in_range_i32_of_u32_sp t : in_ty u32 t = true -> Gen_bits2.in_range_i32_of_u32_g t = Some (in_range_spec i32 t).
+Proof. intros Ht. rewrite (in_range_i32_of_u32_eq t Ht), (in_range_ok i32 u32 t ltac:(wt) ltac:(wt) Ht). reflexivity. Qed.
+Lemma saturate_cast_u8_of_i32_sp x : in_ty i32 x = true -> Gen_bits2.saturate_cast_u8_of_i32_g x = Some (saturate_cast_spec u8 x).
+Proof. intros Hx. rewrite (saturate_cast_u8_of_i32_eq x Hx), (saturate_cast_ok u8 i32 x ltac:(wt) ltac:(wt) Hx). reflexivity. Qed.
+Lemma saturate_cast_i8_of_i32_sp x : in_ty i32 x = true -> Gen_bits2.saturate_cast_i8_of_i32_g x = Some (saturate_cast_spec i8 x).
+Proof. intros Hx. rewrite (saturate_cast_i8_of_i32_eq x Hx), (saturate_cast_ok i8 i32 x ltac:(wt) ltac:(wt) Hx). reflexivity. Qed.
+Lemma saturate_cast_i32_of_u32_sp x : in_ty u32 x = true -> Gen_bits2.saturate_cast_i32_of_u32_g x = Some (saturate_cast_spec i32 x).
+Proof. intros Hx. rewrite (saturate_cast_i32_of_u32_eq x Hx), (saturate_cast_ok i32 u32 x ltac:(wt) ltac:(wt) Hx). reflexivity. Qed.
+Lemma saturate_cast_u32_of_i64_sp x : in_ty i64 x = true -> Gen_bits2.saturate_cast_u32_of_i64_g x = Some (saturate_cast_spec u32 x).
+Proof. intros Hx. rewrite (saturate_cast_u32_of_i64_eq x Hx), (saturate_cast_ok u32 i64 x ltac:(wt) ltac:(wt) Hx). reflexivity. Qed.
+Lemma saturate_cast_i64_of_u64_sp x : in_ty u64 x = true -> Gen_bits2.saturate_cast_i64_of_u64_g x = Some (saturate_cast_spec i64 x).
+Proof. intros Hx. rewrite (saturate_cast_i64_of_u64_eq x Hx), (saturate_cast_ok i64 u64 x ltac:(wt) ltac:(wt) Hx). reflexivity. Qed.
+Lemma saturate_cast_u64_of_i8_sp x : in_ty i8 x = true -> Gen_bits2.saturate_cast_u64_of_i8_g x = Some (saturate_cast_spec u64 x).
+Proof. intros Hx. rewrite (saturate_cast_u64_of_i8_eq x Hx), (saturate_cast_ok u64 i8 x ltac:(wt) ltac:(wt) Hx). reflexivity. Qed.
+Lemma byteswap_fallback_u16_sp v : 0 <= v < 2 ^ 16 -> Gen_bits2.byteswap_fallback_u16_g v = Some (byteswap_u_spec 2 v).
+Proof. intros Hv. rewrite byteswap_fallback_u16_eq, (byteswap_fallback16_ok v Hv). reflexivity. Qed.
+Lemma byteswap_fallback_u32_sp v : 0 <= v < 2 ^ 32 -> Gen_bits2.byteswap_fallback_u32_g v = Some (byteswap_u_spec 4 v).
+Proof. intros Hv. rewrite byteswap_fallback_u32_eq, (byteswap_fallback32_ok v Hv). reflexivity. Qed.
+Lemma byteswap_fallback_u64_sp v : 0 <= v < 2 ^ 64 -> Gen_bits2.byteswap_fallback_u64_g v = Some (byteswap_u_spec 8 v).
+Proof. intros Hv. rewrite byteswap_fallback_u64_eq, (byteswap_fallback64_ok v Hv). reflexivity. Qed.
+Lemma ntoh_u8_sp v : 0 <= v < 2 ^ 8 -> Gen_bits2.ntoh_u8_g v = Some (hton_spec 8 v).
+Proof. intros Hv. rewrite ntoh_u8_eq, (proj2 (hton_ok 8 v ltac:(lia) Hv)). reflexivity. Qed.
+Lemma ntoh_u16_sp v : 0 <= v < 2 ^ 16 -> Gen_bits2.ntoh_u16_g v = Some (hton_spec 16 v).
+Proof. intros Hv. rewrite ntoh_u16_eq, (proj2 (hton_ok 16 v ltac:(lia) Hv)). reflexivity. Qed.
+Lemma ntoh_u32_sp v : 0 <= v < 2 ^ 32 -> Gen_bits2.ntoh_u32_g v = Some (hton_spec 32 v).
+Proof. intros Hv. rewrite ntoh_u32_eq, (proj2 (hton_ok 32 v ltac:(lia) Hv)). reflexivity. Qed.
+Lemma hton_u8_sp v : 0 <= v < 2 ^ 8 -> Gen_bits2.hton_u8_g v = Some (hton_spec 8 v).
+Proof. intros Hv. rewrite hton_u8_eq, (proj1 (hton_ok 8 v ltac:(lia) Hv)). reflexivity. Qed.
+Lemma hton_u16_sp v : 0 <= v < 2 ^ 16 -> Gen_bits2.hton_u16_g v = Some (hton_spec 16 v).
+Proof. intros Hv. rewrite hton_u16_eq, (proj1 (hton_ok 16 v ltac:(lia) Hv)). reflexivity. Qed.
+Lemma hton_u32_sp v : 0 <= v < 2 ^ 32 -> Gen_bits2.hton_u32_g v = Some (hton_spec 32 v).
+Proof. intros Hv. rewrite hton_u32_eq, (proj1 (hton_ok 32 v ltac:(lia) Hv)). reflexivity. Qed.
+Lemma add_sat_fallback_i64_sp x y : in_ty i64 x = true -> in_ty i64 y = true -> Gen_bits2.add_sat_fallback_i64_g x y = Some (add_sat_spec i64 x y).
+Proof. intros Hx Hy. rewrite add_sat_fallback_i64_eq, (add_sat_fallback_ok i64 ltac:(wt) x y Hx Hy). reflexivity. Qed.
+Lemma add_sat_fallback_u64_sp x y : in_ty u64 x = true -> in_ty u64 y = true -> Gen_bits2.add_sat_fallback_u64_g x y = Some (add_sat_spec u64 x y).
+Proof. intros Hx Hy. rewrite add_sat_fallback_u64_eq, (add_sat_fallback_ok u64 ltac:(wt) x y Hx Hy). reflexivity. Qed.
+Lemma abs_i32_sp x : in_ty i32 x = true -> in_ty i32 (Z.abs x) = true -> Gen_bits2.abs_i32_g x = Some (abs_spec x).
+Proof. intros Hx Ha. rewrite abs_i32_eq, (abs_ok i32 ltac:(wt) x Hx Ha). reflexivity. Qed.
+Lemma abs_i64_sp x : in_ty i64 x = true -> in_ty i64 (Z.abs x) = true -> Gen_bits2.abs_i64_g x = Some (abs_spec x).
+Proof. intros Hx Ha. rewrite abs_i64_eq, (abs_ok i64 ltac:(wt) x Hx Ha). reflexivity. Qed.
+Lemma abs_min_none : Gen_bits2.abs_i32_g (imin i32) = None /\ Gen_bits2.abs_i64_g (imin i64) = None.
+Proof. split; vm_compute; reflexivity. Qed.
 
 Lemma genB_spec :
   (forall t u,
@@ -541,14 +673,20 @@ Lemma genB_spec :
       Gen_bits2.cmp_greater_i16_i32_g t u = Some (cmp_greater_spec t u)
       /\ Gen_bits2.cmp_less_equal_i16_i32_g t u = Some (cmp_less_equal_spec t u)
       /\ Gen_bits2.cmp_greater_equal_i16_i32_g t u = Some (cmp_greater_equal_spec t u)
-      /\ Gen_bits2.cmp_not_equal_i16_i32_g t u = Some (cmp_not_equal_spec t u)))
+      /\ Gen_bits2.cmp_not_equal_i16_i32_g t u = Some (cmp_not_equal_spec t u))
+    /\ (in_ty u32 t = true -> in_ty i32 u = true ->
+      Gen_bits2.cmp_greater_u32_i32_g t u = Some (cmp_greater_spec t u)
+      /\ Gen_bits2.cmp_less_equal_u32_i32_g t u = Some (cmp_less_equal_spec t u)
+      /\ Gen_bits2.cmp_greater_equal_u32_i32_g t u = Some (cmp_greater_equal_spec t u)
+      /\ Gen_bits2.cmp_not_equal_u32_i32_g t u = Some (cmp_not_equal_spec t u)))
   /\ (forall t,
     (in_ty i32 t = true -> Gen_bits2.in_range_u32_of_i32_g t = Some (in_range_spec u32 t))
     /\ (in_ty i8 t = true -> Gen_bits2.in_range_u64_of_i8_g t = Some (in_range_spec u64 t))
     /\ (in_ty u32 t = true -> Gen_bits2.in_range_i64_of_u32_g t = Some (in_range_spec i64 t))
     /\ (in_ty i64 t = true -> Gen_bits2.in_range_u64_of_i64_g t = Some (in_range_spec u64 t))
     /\ (in_ty u8 t = true -> Gen_bits2.in_range_i8_of_u8_g t = Some (in_range_spec i8 t))
-    /\ (in_ty i16 t = true -> Gen_bits2.in_range_i32_of_i16_g t = Some (in_range_spec i32 t)))
+    /\ (in_ty i16 t = true -> Gen_bits2.in_range_i32_of_i16_g t = Some (in_range_spec i32 t))
+    /\ (in_ty u32 t = true -> Gen_bits2.in_range_i32_of_u32_g t = Some (in_range_spec i32 t)))
   /\ (forall x,
     (in_ty i32 x = true -> Gen_bits2.saturate_cast_u8_of_i32_g x = Some (saturate_cast_spec u8 x))
     /\ (in_ty i32 x = true -> Gen_bits2.saturate_cast_i8_of_i32_g x = Some (saturate_cast_spec i8 x))
@@ -572,57 +710,7 @@ Lemma genB_spec :
     /\ (in_ty i32 x = true -> in_ty i32 (Z.abs x) = true -> Gen_bits2.abs_i32_g x = Some (abs_spec x))
     /\ (in_ty i64 x = true -> in_ty i64 (Z.abs x) = true -> Gen_bits2.abs_i64_g x = Some (abs_spec x))
     /\ Gen_bits2.abs_i32_g (imin i32) = None
-    /\ Gen_bits2.abs_i64_g (imin i64) = None)
-  /\ (forall word v,
-    (0 <= word < 2 ^ 8 ->
-      Gen_bits2.set_bit_tpl7_u8_g word = Some (set_bit_spec word 7)
-      /\ Gen_bits2.reset_bit_tpl7_u8_g word = Some (reset_bit_spec word 7)
-      /\ Gen_bits2.flip_bit_tpl7_u8_g word = Some (flip_bit_spec word 7)
-      /\ Gen_bits2.test_bit_tpl7_u8_g word = Some (test_bit_spec word 7)
-      /\ Gen_bits2.set_bit_val_tpl7_u8_g word v = Some (assign_bit_spec word 7 v))
-    /\ (0 <= word < 2 ^ 32 ->
-      Gen_bits2.set_bit_tpl31_u32_g word = Some (set_bit_spec word 31)
-      /\ Gen_bits2.reset_bit_tpl31_u32_g word = Some (reset_bit_spec word 31)
-      /\ Gen_bits2.flip_bit_tpl31_u32_g word = Some (flip_bit_spec word 31)
-      /\ Gen_bits2.test_bit_tpl31_u32_g word = Some (test_bit_spec word 31)
-      /\ Gen_bits2.set_bit_val_tpl31_u32_g word v = Some (assign_bit_spec word 31 v))).
+    /\ Gen_bits2.abs_i64_g (imin i64) = None).
 Proof.
-  pose proof genB_model as (Hc & Hi & Hs & Hb & Ha & Ht).
-  split; [|split; [|split; [|split; [|split]]]].
-  - intros t u. specialize (Hc t u). repeat split; intros;
-      repeat match goal with H : _ -> _ -> _ |- _ => specialize (H ltac:(assumption) ltac:(assumption)) end;
-      decompose [and] Hc;
-      match goal with H : ?l = _ |- ?l = _ => rewrite H end; specB.
-  - intros t. specialize (Hi t). repeat split; intros; decompose [and] Hi;
-      match goal with H : _ -> ?l = _ |- ?l = _ => rewrite (H ltac:(assumption)) end; specB.
-  - intros x. specialize (Hs x). repeat split; intros; decompose [and] Hs;
-      match goal with H : _ -> ?l = _ |- ?l = _ => rewrite (H ltac:(assumption)) end; specB.
-  - intros v. specialize (Hb v). decompose [and] Hb. repeat split; intros;
-      match goal with H : ?l = _ |- ?l = _ => rewrite H end;
-      first [ specB
-            | match goal with |- ok_of (?f ?w v) = _ =>
-                let H := fresh in pose proof (hton_ok w v ltac:(lia) ltac:(assumption)) as [H H']; first [rewrite H | rewrite H']; reflexivity end ].
-  - intros x y. specialize (Ha x y). decompose [and] Ha. repeat split; intros;
-      match goal with H : ?l = _ |- ?l = _ => rewrite H end;
-      first [ specB | vm_compute; reflexivity ].
-  - intros word v. specialize (Ht word v). destruct Ht as [H8 H32].
-    split; intros Hw; [specialize (H8 Hw); clear H32 | specialize (H32 Hw); clear H8].
-    + pose proof (tpl_forward 8 ltac:(unfold W; lia) word 7 ltac:(lia)) as (F1 & F2 & F3 & F4 & F5).
-      destruct H8 as (G1 & G2 & G3 & G4 & G5). rewrite F1 in G1. rewrite F3 in G2. rewrite F4 in G3. rewrite F5 in G4. rewrite (F2 v) in G5.
-      cbn [option_map] in *.
-      injection G1 as ->. injection G2 as ->. injection G3 as ->. injection G4 as ->. injection G5 as ->.
-      pose proof (gen_spec_all 0 0 word 7 v 0 0) as S. decompose [and] S.
-      pose proof (gen_bit_equiv word 7 v) as (E8 & _). specialize (E8 Hw ltac:(lia)). destruct E8 as (E1 & E2 & E3 & E4 & E5).
-      rewrite <- E1, <- E2, <- E3, <- E4, <- E5.
-      match goal with H : 0 <= word < 2 ^ 8 -> 0 <= 7 < 8 -> _ |- _ => destruct (H Hw ltac:(lia)) as (S1 & S2 & S3 & S4 & S5) end.
-      repeat split; assumption.
-    + pose proof (tpl_forward 32 ltac:(unfold W; lia) word 31 ltac:(lia)) as (F1 & F2 & F3 & F4 & F5).
-      destruct H32 as (G1 & G2 & G3 & G4 & G5). rewrite F1 in G1. rewrite F3 in G2. rewrite F4 in G3. rewrite F5 in G4. rewrite (F2 v) in G5.
-      cbn [option_map] in *.
-      injection G1 as ->. injection G2 as ->. injection G3 as ->. injection G4 as ->. injection G5 as ->.
-      pose proof (gen_spec_all 0 0 word 31 v 0 0) as S. decompose [and] S.
-      pose proof (gen_bit_equiv word 31 v) as (_ & _ & E32 & _). specialize (E32 Hw ltac:(lia)). destruct E32 as (E1 & E2 & E3 & E4 & E5).
-      rewrite <- E1, <- E2, <- E3, <- E4, <- E5.
-      match goal with H : 0 <= word < 2 ^ 32 -> 0 <= 31 < 32 -> _ |- _ => destruct (H Hw ltac:(lia)) as (S1 & S2 & S3 & S4 & S5) end.
-      repeat split; assumption.
+  exact (conj (fun t u => (conj (fun Ht Hu => (conj (cmp_greater_i32_u32_sp t u Ht Hu) (conj (cmp_less_equal_i32_u32_sp t u Ht Hu) (conj (cmp_greater_equal_i32_u32_sp t u Ht Hu) (cmp_not_equal_i32_u32_sp t u Ht Hu))))) (conj (fun Ht Hu => (conj (cmp_greater_i8_u64_sp t u Ht Hu) (conj (cmp_less_equal_i8_u64_sp t u Ht Hu) (conj (cmp_greater_equal_i8_u64_sp t u Ht Hu) (cmp_not_equal_i8_u64_sp t u Ht Hu))))) (conj (fun Ht Hu => (conj (cmp_greater_u32_i64_sp t u Ht Hu) (conj (cmp_less_equal_u32_i64_sp t u Ht Hu) (conj (cmp_greater_equal_u32_i64_sp t u Ht Hu) (cmp_not_equal_u32_i64_sp t u Ht Hu))))) (conj (fun Ht Hu => (conj (cmp_greater_i64_u64_sp t u Ht Hu) (conj (cmp_less_equal_i64_u64_sp t u Ht Hu) (conj (cmp_greater_equal_i64_u64_sp t u Ht Hu) (cmp_not_equal_i64_u64_sp t u Ht Hu))))) (conj (fun Ht Hu => (conj (cmp_greater_u8_i8_sp t u Ht Hu) (conj (cmp_less_equal_u8_i8_sp t u Ht Hu) (conj (cmp_greater_equal_u8_i8_sp t u Ht Hu) (cmp_not_equal_u8_i8_sp t u Ht Hu))))) (conj (fun Ht Hu => (conj (cmp_greater_i16_i32_sp t u Ht Hu) (conj (cmp_less_equal_i16_i32_sp t u Ht Hu) (conj (cmp_greater_equal_i16_i32_sp t u Ht Hu) (cmp_not_equal_i16_i32_sp t u Ht Hu))))) (fun Ht Hu => (conj (cmp_greater_u32_i32_sp t u Ht Hu) (conj (cmp_less_equal_u32_i32_sp t u Ht Hu) (conj (cmp_greater_equal_u32_i32_sp t u Ht Hu) (cmp_not_equal_u32_i32_sp t u Ht Hu)))))))))))) (conj (fun t => (conj (in_range_u32_of_i32_sp t) (conj (in_range_u64_of_i8_sp t) (conj (in_range_i64_of_u32_sp t) (conj (in_range_u64_of_i64_sp t) (conj (in_range_i8_of_u8_sp t) (conj (in_range_i32_of_i16_sp t) (in_range_i32_of_u32_sp t)))))))) (conj (fun x => (conj (saturate_cast_u8_of_i32_sp x) (conj (saturate_cast_i8_of_i32_sp x) (conj (saturate_cast_i32_of_u32_sp x) (conj (saturate_cast_u32_of_i64_sp x) (conj (saturate_cast_i64_of_u64_sp x) (saturate_cast_u64_of_i8_sp x))))))) (conj (fun v => (conj (byteswap_fallback_u16_sp v) (conj (byteswap_fallback_u32_sp v) (conj (byteswap_fallback_u64_sp v) (conj (ntoh_u8_sp v) (conj (ntoh_u16_sp v) (conj (ntoh_u32_sp v) (conj (hton_u8_sp v) (conj (hton_u16_sp v) (hton_u32_sp v)))))))))) (fun x y => (conj (add_sat_fallback_i64_sp x y) (conj (add_sat_fallback_u64_sp x y) (conj (abs_i32_sp x) (conj (abs_i64_sp x) (conj (proj1 abs_min_none) (proj2 abs_min_none))))))))))).
 Qed.
